@@ -8,7 +8,7 @@ CONSTANTS
   Small = FALSE
   Avoid = TRUE
   SimK = 1
-  Acts = {"oset", "rebind", "nest"}
+  Acts = {"oset", "rebind", "nest", "ctor", "batch"}
 CONSTRAINT LevelBound
 INVARIANT Conforms
 INVARIANT AltsConform
